@@ -241,7 +241,12 @@ def gen_structure():
     G = (0, 1, 2.5, 3)
     ivs = [()] + [((a, b, l),) for a, b in itertools.combinations(G, 2) for l in ("x", "")] + \
           [((0, 1, "x"), (1, 2.5, "y")), ((0, 1, ""), (2.5, 3, "y")), ((0, 1, ""), (1, 2.5, "x"), (2.5, 3, ""))]
-    pts = [(), ((1, "u"),), ((0, ""), (3, "v")), ((0.5, "a"), (1.5, ""), (2.5, "c"))]
+    # runs of blank-labelled entries (two, three and four in a row; at the start, in the middle, at the end; every entry blank)
+    ivs += [((0, 1, ""), (1, 2.5, ""), (2.5, 3, "z")), ((0, 1, "x"), (1, 2, ""), (2, 2.5, "")), ((0, 1, ""), (1, 2, ""), (2, 2.5, ""), (2.5, 3, "z")),
+            ((0, 0.5, "x"), (0.5, 1, ""), (1, 2, ""), (2, 2.5, "y"), (2.5, 3, "")), ((0, 1, ""), (1, 2, ""), (2, 2.5, ""), (2.5, 3, "")),
+            ((0, 1, ""), (1.5, 2, ""), (2.5, 3, "z"))]
+    pts = [(), ((1, "u"),), ((0, ""), (3, "v")), ((0.5, "a"), (1.5, ""), (2.5, "c")),
+           ((0.5, ""), (1.5, ""), (2.5, "c")), ((0.5, "a"), (1, ""), (1.5, ""), (2, ""), (2.5, "c")), ((0.5, ""), (1, ""), (1.5, ""), (2, ""))]
     for iv in ivs:
         for pt in pts:
             for (ilo, ihi) in ((0, 3), (0, 4.5)):
